@@ -25,7 +25,7 @@ def run(ctx):
                        "malformed UTF-8, float64 input on scaled fields, expanded marks, developer fields with/without developer data id and field description, native overrides, "
                        "own scale/offset, 255/256 developer fields x {omit, preserve}; protocol 1.0 through the encoder; non-trivial = at least one message accepted; distinct by input")
     ctx.cov["checker_cmd"] = "coq/build.sh Props/C10.vo Run/RunC10.vo; coqc Props/C10.v; coqc cases_C10_*.v (vm_compute)"
-    tr = ctx.prepare(parts=["factory", "dump-consts", "crc"])
+    tr = ctx.prepare(parts=["factory", "dump-consts", "crc", "decoder-reset", "convmode"])
     ok, _ = ctx.coq(["Props/C10.vo", "Run/RunC10.vo"])
     if ok:
         ctx.props()
